@@ -3,8 +3,8 @@
    version through the switch tables goextract read from ParseVersion, so the
    statements below are about the constants, tables and regular expression
    that are in version.go on this run. *)
-From Apko Require Import Base.Prelude Base.Regex Spec.VersionSpec Model.Version Model.VersionFilter Proofs.VersionProofs Proofs.ConstraintProofs
-  Proofs.VersionStringProofs Proofs.VersionFilterProofs
+From Apko Require Import Base.Prelude Base.Regex Spec.VersionSpec Model.Version Model.VersionFilter Model.SonameFixed Proofs.VersionProofs Proofs.ConstraintProofs
+  Proofs.VersionStringProofs Proofs.VersionFilterProofs Proofs.VersionPrefixProofs Proofs.SonameProofs Proofs.SonameFixedProofs
   Generated.Regexes Generated.VersionConsts Generated.C03Version Generated.C03Ladders.
 Open Scope Z_scope.
 
@@ -231,8 +231,8 @@ Proof. repeat split; vm_compute; reflexivity. Qed.
 
 (* shared-library names (finding C03-F2): the 0.V rescaling of so: versions without a release suffix is found by cutting at the
    first "=", so a provide so:libx.so.1=6 is compared as 0.6 while the constraint so:libx.so.1>1 keeps 1: 6 > 1 is answered
-   false.  With an operator that contains "=" both sides move and the order is kept (instances below; the soname stage judges
-   every same-kind pair on the real code). *)
+   false.  With an operator that contains "=" both sides move and the order is kept.  This is the concrete witness; the
+   statements for ALL names and versions follow (c03_soname_scale, c03_soname_scale_refuted_for_all). *)
 Theorem c03_soname_scale_refuted :
   exists a, parse_version (c_version (resolve_constraint "so:libx.so.1=6")) = Some a /\
             satisfied_by (resolve_constraint "so:libx.so.1>1") a = Some false /\
@@ -240,6 +240,127 @@ Theorem c03_soname_scale_refuted :
             satisfied_by (resolve_constraint "so:libx.so.1<=1") a = Some false.
 Proof. eexists. repeat split; vm_compute; reflexivity. Qed.
 Print Assumptions c03_soname_scale_refuted.
+
+(* ---- the so: rescaling for ALL names and version strings ---------------------------------------------------------------- *)
+
+(* "0." in front of an accepted version string is accepted and denotes the same tuple with one more leading component 0; a
+   leading 0 on BOTH sides changes neither the order (every later field follows unchanged) nor the ~ prefix rule *)
+Theorem c03_zero_dot_prefix :
+  (forall s m v, parse_version s = Some m -> abs m = Some v ->
+     exists m', parse_version ("0." ++ s)%string = Some m' /\ abs m' = Some (cons0 v)) /\
+  (forall a b, spec_cmp (cons0 a) (cons0 b) = spec_cmp a b) /\
+  (forall a r, spec_tilde (cons0 a) (cons0 r) = spec_tilde a r) /\
+  (forall op a r, spec_sat op (cons0 a) (cons0 r) = spec_sat op a r).
+Proof. exact (conj parse_zero_dot_abs (conj spec_cmp_cons0 (conj spec_tilde_cons0 spec_sat_cons0))). Qed.
+Print Assumptions c03_zero_dot_prefix.
+
+(* endsWithReleaseStr (the regenerated -r\d+$) accepts exactly the strings that end in "-r" and at least one digit *)
+Theorem c03_release_suffix : forall l, Forall byte l ->
+  (ends_release l = true <-> exists p ds, l = (p ++ 45%N :: 114%N :: ds)%list /\ ds <> [] /\ forallb is_digit ds = true).
+Proof. exact ends_release_iff. Qed.
+Print Assumptions c03_release_suffix.
+
+(* what "so:" ++ name ++ operator ++ version resolves to, for every row of the operator switch, every name made of name
+   characters and every accepted version string (c03_constraint_split excluded so: names): the parts survive, and the version
+   is moved to 0.V exactly when the operator CONTAINS "=" and V has no release suffix *)
+Theorem c03_soname_resolve : forall row nm v pv,
+  In row matcher_table -> namechars nm -> parse_version v = Some pv ->
+  resolve_constraint ("so:" ++ nm ++ fst row ++ v)%string =
+    {| c_name := ("so:" ++ nm)%string; c_version := so_version (fst row) v; c_dep := snd row; c_pin := ""%string |}.
+Proof. exact resolve_so. Qed.
+Print Assumptions c03_soname_resolve.
+
+(* the verdict of a so: constraint on the version of a so: provide (both through ResolvePackageNameVersionPin), in general —
+   mixed kinds included: the provide is on the 0.W scale unless W has a release suffix; the constraint is on the 0.V scale
+   unless V has a release suffix OR the operator has no "=" *)
+Theorem c03_soname_verdict : forall row nm v w pv pw,
+  In row matcher_table -> namechars nm -> parse_version v = Some pv -> parse_version w = Some pw ->
+  exists a va vr, abs pw = Some va /\ abs pv = Some vr /\
+    parse_version (c_version (resolve_constraint ("so:" ++ nm ++ "=" ++ w)%string)) = Some a /\
+    satisfied_by (resolve_constraint ("so:" ++ nm ++ fst row ++ v)%string) a =
+      Some (spec_sat (vop_of_string (fst row))
+              (scaled (negb (ends_release_s w)) va)
+              (scaled (has_eq (fst row) && negb (ends_release_s v)) vr)).
+Proof. exact so_verdict. Qed.
+Print Assumptions c03_soname_verdict.
+
+(* =, >=, <= on versions of the same kind (both with, or both without, a release suffix): the rescaling cancels and the
+   verdict is the spec's operator on the two versions *)
+Theorem c03_soname_scale : forall row nm v w pv pw,
+  In row matcher_table -> has_eq (fst row) = true -> namechars nm ->
+  parse_version v = Some pv -> parse_version w = Some pw ->
+  ends_release_s v = ends_release_s w ->
+  exists a va vr, abs pw = Some va /\ abs pv = Some vr /\
+    parse_version (c_version (resolve_constraint ("so:" ++ nm ++ "=" ++ w)%string)) = Some a /\
+    satisfied_by (resolve_constraint ("so:" ++ nm ++ fst row ++ v)%string) a =
+      Some (spec_sat (vop_of_string (fst row)) va vr).
+Proof. exact so_verdict_with_eq. Qed.
+Print Assumptions c03_soname_scale.
+
+(* >, <, ~ (finding C03-F2, for all inputs): the constraint is not rescaled, so a provide without release suffix is judged as
+   0.W against V; when V's first component is at least 1 the two versions do not matter at all - ">" is never satisfied,
+   "<" always, "~" never *)
+Theorem c03_soname_scale_refuted_for_all : forall row nm v w pv pw,
+  In row matcher_table -> has_eq (fst row) = false -> namechars nm ->
+  parse_version v = Some pv -> parse_version w = Some pw -> ends_release_s w = false ->
+  (exists a va vr, abs pw = Some va /\ abs pv = Some vr /\
+     parse_version (c_version (resolve_constraint ("so:" ++ nm ++ "=" ++ w)%string)) = Some a /\
+     satisfied_by (resolve_constraint ("so:" ++ nm ++ fst row ++ v)%string) a =
+       Some (spec_sat (vop_of_string (fst row)) (cons0 va) vr)) /\
+  (0 < hd 0 (m_nums pv) ->
+   exists a, parse_version (c_version (resolve_constraint ("so:" ++ nm ++ "=" ++ w)%string)) = Some a /\
+     satisfied_by (resolve_constraint ("so:" ++ nm ++ fst row ++ v)%string) a =
+       Some (match vop_of_string (fst row) with OpLt => true | _ => false end)).
+Proof.
+  intros row nm v w pv pw Hin He Hn Hv Hw Hk.
+  exact (conj (so_verdict_without_eq row nm v w pv pw Hin He Hn Hv Hw Hk)
+              (so_verdict_without_eq_constant row nm v w pv pw Hin He Hn Hv Hw Hk)).
+Qed.
+Print Assumptions c03_soname_scale_refuted_for_all.
+
+Example c03_soname_example :
+  In (">="%string, dep_versionGreaterEqual) matcher_table /\ has_eq ">=" = true /\
+  In (">"%string, dep_versionGreater) matcher_table /\ has_eq ">" = false /\
+  namechars "libc.musl-x86_64.so.1" /\
+  (exists pv, parse_version "1.2" = Some pv /\ 0 < hd 0 (m_nums pv)) /\ (exists pw, parse_version "1.10" = Some pw) /\
+  ends_release_s "1.2" = false /\ ends_release_s "1.10" = false /\ ends_release_s "1.2-r3" = true /\
+  so_version ">=" "1.2" = "0.1.2"%string /\ so_version ">" "1.2" = "1.2"%string /\ so_version "=" "1.2-r3" = "1.2-r3"%string.
+Proof. repeat split; try (vm_compute; auto 10; fail); eexists; split; vm_compute; reflexivity. Qed.
+
+(* ---- the repair of C03-F2 evaluated on the model (fixes/C03-F2.patch, Model/SonameFixed.v; NOT applied) ------------------- *)
+
+(* the repaired rewrite ("0." behind the whole operator run) returns the same bytes as today's on every string that is not a
+   so: name, on every so: string without an operator character, and on every so: string whose operator run ends in its only
+   "=" (=, >=, <=) in front of something that is not an operator character *)
+Theorem c03_soname_repair_conservative :
+  (forall s, strip_prefix so_bytes s = None -> so_rewrite_fixed s = so_rewrite s) /\
+  (forall rest, no_op (so_bytes ++ rest) = true -> so_rewrite_fixed (so_bytes ++ rest) = so_rewrite (so_bytes ++ rest)) /\
+  (forall pre o v, no_op (so_bytes ++ pre) = true -> forallb is_opchar o = true -> no_eq o = true -> head_no_op v ->
+     so_rewrite_fixed (so_bytes ++ pre ++ (o ++ [61%N]) ++ v) = so_rewrite (so_bytes ++ pre ++ (o ++ [61%N]) ++ v)).
+Proof. exact so_rewrite_fixed_conservative. Qed.
+Print Assumptions c03_soname_repair_conservative.
+
+(* and with it every one of the six operators puts both sides on one scale: same kind => the order of the versions *)
+Theorem c03_soname_repair_follows_order : forall row nm v w pv pw,
+  In row matcher_table -> namechars nm -> parse_version v = Some pv -> parse_version w = Some pw ->
+  exists a va vr, abs pw = Some va /\ abs pv = Some vr /\
+    parse_version (c_version (resolve_constraint_fixed ("so:" ++ nm ++ "=" ++ w)%string)) = Some a /\
+    satisfied_by (resolve_constraint_fixed ("so:" ++ nm ++ fst row ++ v)%string) a =
+      Some (spec_sat (vop_of_string (fst row)) (scaled (negb (ends_release_s w)) va) (scaled (negb (ends_release_s v)) vr)) /\
+    (ends_release_s v = ends_release_s w ->
+     satisfied_by (resolve_constraint_fixed ("so:" ++ nm ++ fst row ++ v)%string) a = Some (spec_sat (vop_of_string (fst row)) va vr)).
+Proof. exact so_verdict_fixed. Qed.
+Print Assumptions c03_soname_repair_follows_order.
+
+Example c03_soname_repair_example :
+  exists a, parse_version (c_version (resolve_constraint_fixed "so:libx.so.1=6")) = Some a /\
+            satisfied_by (resolve_constraint_fixed "so:libx.so.1>1") a = Some true /\
+            satisfied_by (resolve_constraint_fixed "so:libx.so.1<1") a = Some false /\
+            satisfied_by (resolve_constraint_fixed "so:libx.so.1>=1") a = Some true /\
+            resolve_constraint_fixed "so:libx.so.1>=1" = resolve_constraint "so:libx.so.1>=1" /\
+            resolve_constraint_fixed "so:libx.so.1=6" = resolve_constraint "so:libx.so.1=6" /\
+            resolve_constraint_fixed "so:libx.so.1" = resolve_constraint "so:libx.so.1".
+Proof. exact so_fixed_witness. Qed.
 
 (* non-vacuity: real version strings parse, decode and compare *)
 Example c03_example :
